@@ -4,7 +4,7 @@
 
 package cron
 
-//@ extern-pure (*time.Timer).Stop, (*time.Timer).Reset
+//@ extern-pure (*time.Timer).Stop
 
 // ---- C16: the in-memory cron ------------------------------------------------------------------
 // sort.Search returns an index in [0, n] (assumed contract of the dependency).
@@ -170,3 +170,13 @@ package cron
 //@   ensures[C16.schedule_inserts_iff_accepted] (result == nil) == (inserts == old(inserts) + 1)
 //@ func (*Cron).run
 //@   ensures[C15+C16.recurring_job_is_reinserted] old(job.Expression) != nil ==> inserts == old(inserts) + 1
+
+// resetTimer always re-arms the timer when something is pending (a timer that has already fired is not re-armed by
+// leaving it alone, whatever it was last aimed at)
+//@ ghost timerArms int
+//@ extern (*time.Timer).Reset
+//@   ghost-ensures timerArms == old(timerArms) + 1
+//@   also-modifies timerArms
+//@   pure-effects
+//@ func (*Cron).resetTimer
+//@   ensures[C15+C16.reset_always_rearms_when_pending] len(c.Timeline) > 0 ==> timerArms == old(timerArms) + 1
